@@ -82,10 +82,28 @@ def run(tier, seed):
             for order in K.loop_orders(K.EXPRESSIONS["matmul"], {v: T}):
                 rec.case("all-tiles", (v, T, tuple(order)))
                 check(rec, "all-tiles", "matmul", contents, sizes, order, {v: T}, "two-finger")
+    # at scale: larger shapes (ranks of 12-40 coordinates), sparse operands, tilings with many tiles
+    scale = {"matmul": dict(m=9, k=14, n=8), "matvec": dict(m=12, k=30), "dot": dict(k=40), "elementwise": dict(m=40), "reduce2": dict(m=10, k=20),
+             "outer": dict(m=12, n=10), "three": dict(m=6, k=20)}
+    snames = list(scale)
+    for i in range(30 if tier == "quick" else 400):
+        name = snames[i % len(snames)]
+        sizes = scale[name]
+        expr = K.EXPRESSIONS[name]
+        contents = [next(operand_contents(idx, sizes, (1, 2, 3, -1, -2), rnd, density=rnd.choice([0.15, 0.4, 0.8]))) for idx in expr[1]]
+        tiles = {}
+        for v in sorted(set("".join(expr[1]))):
+            if rnd.random() < 0.5:
+                tiles[v] = rnd.randint(1, sizes[v])
+        order = rnd.choice(list(K.loop_orders(expr, tiles)))
+        style = rnd.choice(["two-finger", "leader-follower"])
+        rec.case("scale", (name, repr(contents), tuple(order), repr(tiles), style))
+        check(rec, "scale", name, contents, sizes, order, tiles, style)
     return rec.result("einsum-like kernels (dot, matrix-vector, matrix-matrix, elementwise, reductions, outer, three operands) written in the library's "
                       "idiom under /verif/bounded/kernels.py: every operand value assignment over {0,1,2} on tiny shapes x every loop order x both "
                       "intersection styles (zero products filtered); seeded random sparse operands with mixed signs x random uniform tilings of any "
-                      "subset of ranks x random legal loop orders; every tile size of each rank of a matmul x all loop orders; against a dense nested-loop reference")
+                      "subset of ranks x random legal loop orders; every tile size of each rank of a matmul x all loop orders; plus seeded random kernels at scale "
+                      "(ranks of 8-40 coordinates); against a dense nested-loop reference")
 
 
 def replay(case):
